@@ -602,7 +602,12 @@ def sine_case(seed, k):
     summ = dict(dt=dt, lla0=lla0.tolist(), velocity_mean=vmean.tolist(), amplitude=vamp.tolist(), period=period,
                 phase_offset=ph, phase_type=kind)
     for call, st in enumerate(('rate', 'increment')):
-        trj, imu = sim.generate_sine_velocity_motion(dt, total, lla0, vmean, vamp, period, phase, st)
+        try:
+            trj, imu = sim.generate_sine_velocity_motion(dt, total, lla0, vmean, vamp, period, phase, st)
+        except Exception as ex:
+            fails.append(f"call {call + 1} ({st}): generate_sine_velocity_motion raised {type(ex).__name__}: {ex} "
+                         f"(phase offset passed as {kind})")
+            break
         if not (np.array_equal(lla0, saved['lla0']) and np.array_equal(vmean, saved['vmean'])
                 and np.array_equal(vamp, saved['vamp']) and list(np.asarray(phase, dtype=float)) == saved['phase']):
             fails.append(f"call {call + 1} ({st}): generate_sine_velocity_motion modified its arguments "
@@ -679,7 +684,7 @@ def numeric(r, n_traj, n_rest, dts, seed=None, closed=True, legs=((0.1, 1),), n_
     for k in range(n_sine):
         fails, summ = sine_case(seed, k)
         r.case(('sine', k), sample=dict(kind='sine', k=k, **summ))
-        for f in fails[:2]:
+        for f in sorted(fails, key=lambda s: 'modified its arguments' in s)[:2]:
             out.append((f, dict(kind='sine', seed=seed, k=k, what=f)))
     dist['sine_velocity_motion'] = n_sine
     dist['time_origins'] = list(ORIGINS)
